@@ -7,6 +7,7 @@ package main
 
 import (
 	"sync"
+	"sync/atomic"
 
 	"github.com/yuin/goldmark/ast"
 	"github.com/yuin/goldmark/parser"
@@ -23,9 +24,15 @@ var (
 	globalSinks sync.Map // name -> hookSink receiving every event (gates for C07)
 )
 
+// blockRec, when set, receives every parser event (the block-phase recorder of /repo)
+var blockRec atomic.Pointer[func(ev string, args ...interface{})]
+
 func installHooks() {
 	hooksOnce.Do(func() {
 		dispatch := func(ev string, args ...interface{}) {
+			if r := blockRec.Load(); r != nil {
+				(*r)(ev, args...)
+			}
 			globalSinks.Range(func(_, v interface{}) bool {
 				v.(hookSink)(ev, args)
 				return true
